@@ -9,7 +9,7 @@ Extraction "../extract/C19/model.ml"
   ds_remove_num ds_remove_perm ds_remove_nums pad_perm
   (* vectors *)
   dv_get dv_set dv_zero dv_clear dv_redim dv_add dv_sub dv_scale dv_multadd dv_dot dv_length2 dv_maxabs dv_minabs
-  sv_get sv_pos sv_dim sv_add sv_add_list sv_assign sv_remove sv_scale sv_sort sv_dot_dv sv_dot_sv sv_length2
+  sv_get sv_pos sv_dim sv_add sv_add_list sv_assign sv_remove sv_remove_range sv_scale sv_sort sv_dot_dv sv_dot_sv sv_length2
   sv_maxabs sv_minabs sv_of_dv sv_unit sv_times sv_of_ss
   dv_multadd_sv dv_add_sv dv_sub_sv dv_multsub_sv dv_assign_sv dv_set_sv
   ss_new ss_do_setup ss_unsetup ss_clearnum ss_setvalue ss_add ss_clearidx ss_clear ss_scale ss_add_dv ss_sub_dv
